@@ -34,6 +34,15 @@ class argument_stack:
                 return frames[name]
         return default
 
+    def mentions(self, name: str) -> bool:
+        "True if `name` is used anywhere inside one of the definitions currently on the stack"
+        return any(
+            isinstance(n, ast.Name) and n.id == name
+            for frame in self._arg_transformer
+            for val in frame.values()
+            for n in ast.walk(val)
+        )
+
     def define_name(self, name: str, val: ast.AST):
         "Add a definition to the current deepest stack frame"
         self._arg_transformer[-1][name] = val
